@@ -75,6 +75,11 @@ def run(ctx):
     # convolutions; a constant DATA operand, the other excluded shape, is folded away by converters and is not generated)
     fp.explore(ctx, drv, 30 if ctx.tier == "quick" else 250, lambda case, res: res["status"] == "ok" and fp.oracle_c01(ctx, interp, case, res),
                gen=lambda rng_, i: fp.gen_runtime_weight(rng_), graph_corr=True, pipe_corr=True)
+    # the operand-type signatures [builtin code, operand types, result types] (255 = absent operand) that occurred in outputs which the
+    # ASSUMED kernel table accepts and the interpreter allocated and invoked: this run's validation of the table by execution
+    sigs = sorted(getattr(ctx, "ksig_seen", set()))
+    ctx.extra["kernel_signatures_seen"] = len(sigs)
+    ctx.extra["kernel_signatures_sample"] = [json.loads(x) for x in sigs[:60]]
     interp.close()
     drv.close()
     return common.finish(ctx)
